@@ -263,3 +263,31 @@ def compile_error_program(rng):
     for i in range(r.range(0, 3)):
         L.append("print(\"tail %d\");" % i)
     return "\n".join(L) + "\n"
+
+
+def lambda_trace_program(rng):
+    """trace entries of lambdas: nested lambdas, siblings after a lambda that contains lambdas, lambdas inside named
+    functions, methods and fiber bodies (each function numbers its own lambdas from 0), and uncaught error instances
+    whose context is not a string"""
+    r = rng
+    L = PRELUDE.strip("\n").split("\n")
+    fail = r.choice(["throw \"inner\";", "nil + 1;", "throw Error.new(404);", "throw MyErr.new([\"disk\", 7]);", "throw Error.new(nil);",
+                     "throw ParseErr.new((1, 2));", "throw Error.new({\"k\": 1});", "throw Error.new(3.5);", "throw MyErr.new(true);"])
+    shape = r.below(5)
+    if shape == 0:
+        L += ["var outer = || {", "    var first = |a| a;", "    var second = || {", "        var deep = || {", "            " + fail, "        };",
+              "        return deep();", "    };", "    return second();", "};", "outer();"]
+    elif shape == 1:
+        L += ["fn apply(f) {", "    return f();", "}", "var a = || {", "    var unused = || 1;", "    return apply(|| {", "        " + fail, "    });", "};",
+              "var b = || 2;", "a();"]
+    elif shape == 2:
+        L += ["fn named() {", "    var l0 = || 0;", "    var l1 = || {", "        var l10 = || 1;", "        var l11 = || {", "            " + fail, "        };",
+              "        return l11();", "    };", "    var l2 = || l1();", "    return l2();", "}", "var top0 = || named();", "top0();"]
+    elif shape == 3:
+        L += ["#[constructor(new)]", "class K {", "    fn m(self) {", "        var one = || 1;", "        var two = || {", "            " + fail, "        };",
+              "        return two();", "    }", "}", "var run = || K.new().m();", "run();"]
+    else:
+        L += ["var fbr = Fiber.new(|| {", "    var g = || {", "        var h = || {", "            " + fail, "        };", "        return h();", "    };",
+              "    return g();", "});", "var caller = || fbr.call();", "caller();"]
+    L.append("print(\"not reached\");")
+    return "\n".join(L) + "\n", []
